@@ -104,6 +104,7 @@ type CaseWriter struct {
 	distinct map[string]bool
 	Samples  []any
 	Extra    string // further Coq commands appended to every shard
+	Header   string // further Coq commands placed before the case list
 }
 
 func NewCaseWriter(t *testing.T, prop, module string) *CaseWriter {
@@ -145,6 +146,7 @@ func (w *CaseWriter) flush() {
 	name := fmt.Sprintf("cases_%s_%03d", w.prop, w.shard)
 	var b strings.Builder
 	fmt.Fprintf(&b, "From FS Require Import %s.\nOpen Scope Z_scope.\n", strings.TrimPrefix(w.module, "FS."))
+	b.WriteString(w.Header)
 	b.WriteString("Definition cases : list case := [\n")
 	b.WriteString(strings.Join(w.cases, ";\n"))
 	b.WriteString("\n].\n")
